@@ -237,7 +237,9 @@ def compare_estimates(a, b, what, viol, cnt, _cond=None):
             continue
         tol_x = 1e-9 * np.maximum(np.abs(ra["est_x"]), 1.0) + amp * np.maximum(ra["dx"], rb["dx"])
         # (the posterior is formed as P - K S K': when an update shrinks a large prior by orders of magnitude the subtraction keeps only eps * |prior|)
-        tol_p = 1e-9 * float(np.max(np.abs(ra["est_p"]))) + amp * max(ra["dp"], rb["dp"]) + 100 * EPS * float(np.max(np.abs(ra["pred_p"])))
+        # covariance: the repo forms K = C inv(S) with an explicit inverse and then P - K S K'; the product K S K' carries eps * cond(S)^2 (inverse, then
+        # multiplied by S again), relative to the size of the update
+        tol_p = 1e-9 * float(np.max(np.abs(ra["est_p"]))) + max(amp, 10 * EPS * c * c) * max(ra["dp"], rb["dp"]) + 100 * EPS * float(np.max(np.abs(ra["pred_p"])))
         rx = float(np.max(np.abs(ra["est_x"] - rb["est_x"]) / tol_x))
         rp = float(np.max(np.abs(ra["est_p"] - rb["est_p"])) / max(tol_p, 1e-300))
         mx = max(mx, rx, rp)
